@@ -2007,3 +2007,10 @@ m("C11", "pi-text-plain-str", ZP,
                 # report errors against the template source
                 text = Token(text, name.pos - 2, name.source, name.filename)
 ''', "")
+m("C17", "encoding-searched-in-whole-document", "utils.py",
+  "        match = RE_ENCODING.search(body, 0, end if end >= 0 else len(body))",
+  "        match = RE_ENCODING.search(body)")
+m("C17", "meta-one-order-only", "utils.py",
+  '''    _META_HTTP_EQUIV + r'\\s+' + _META_CONTENT + '|' +
+    _META_CONTENT + r'\\s+' + _META_HTTP_EQUIV +''',
+  '''    _META_HTTP_EQUIV + r'\\s+' + _META_CONTENT +''')
